@@ -189,13 +189,13 @@ Qed.
 
 (* ---- the pool invariants ---------------------------------------------------------------------------------------- *)
 Definition walks (pool : list visit) : list (Z * Z) :=
-  flat_map (fun v => match v with Walk me _ op _ _ => [(me, op)] | _ => [] end) pool.
+  flat_map (fun v => match v with Walk _ me _ op _ _ => [(me, op)] | _ => [] end) pool.
 Definition base (t : table) (pool : list visit) (u v : Z) : Prop := conn t u v \/ In (u, v) (walks pool).
 Definition Q (t : table) (pool : list visit) : Z -> Z -> Prop := clos_refl_sym_trans Z (base t pool).
 
 Definition CI (t : table) (v : visit) : Prop :=
   match v with
-  | Walk me child op oi _ => conn t child me /\ conn t oi op
+  | Walk _ me child op oi _ => conn t child me /\ conn t oi op
   | UpdParent me np => conn t me np
   | Resolve me mitem _ => conn t mitem me
   end.
@@ -217,7 +217,7 @@ Proof. unfold walks. apply flat_map_app. Qed.
 Lemma walks_cons v pool : walks (v :: pool) = walks [v] ++ walks pool.
 Proof. apply (walks_app [v] pool). Qed.
 Lemma walks_remove k pool v u w : nth_error pool k = Some v -> In (u, w) (walks pool) ->
-  In (u, w) (walks (remove_nth k pool)) \/ (exists c oi r, v = Walk u c w oi r).
+  In (u, w) (walks (remove_nth k pool)) \/ (exists cb c oi r, v = Walk cb u c w oi r).
 Proof.
   revert k; induction pool as [|y pool IH]; intros k Hk Hin; [destruct k; discriminate|].
   destruct k as [|k]; cbn in Hk.
@@ -231,11 +231,11 @@ Qed.
 (* one delivery: same-root only grows, the visits sent carry connected items, and a consumed walk pair stays connected *)
 Theorem exec_conn t v t' sends : Inv t -> VI t v -> CI t v -> exec t v = Some (t', sends) ->
   Inv t' /\ (forall a b, conn t a b -> conn t' a b) /\ Forall (CI t') sends /\
-  (forall me c op oi r, v = Walk me c op oi r -> Q t' sends me op).
+  (forall cb me c op oi r, v = Walk cb me c op oi r -> Q t' sends me op).
 Proof.
   intros HI HV HC He.
   destruct (exec_ok t v HI HV) as (t2 & s2 & E2 & I2 & _ & _). rewrite He in E2. injection E2 as <- <-. split; [exact I2|]. clear I2.
-  destruct v as [me child op oi orank|me np|me mitem mrank]; cbn [exec] in He.
+  destruct v as [cb me child op oi orank|me np|me mitem mrank]; cbn [exec] in He.
   - (* Walk *)
     destruct HC as (Cc & Co).
     set (t1 := ensure t me) in *. assert (I1 : Inv t1) by (apply Inv_ensure, HI).
@@ -247,14 +247,14 @@ Proof.
     assert (Cc1 : conn t1 child (iparent i)) by (apply (conn_trans _ _ me); [apply M1, Cc|exact Cmp]).
     assert (S0 : forall t3, (forall a b, conn t1 a b -> conn t3 a b) -> Forall (CI t3) (if child =? me then [] else [UpdParent child (iparent i)])).
     { intros t3 M3. destruct (child =? me); constructor; [|constructor]. cbn. apply M3, Cc1. }
-    assert (Wswap : forall t3, (forall a b, conn t1 a b -> conn t3 a b) -> CI t3 (Walk op oi (iparent i) me (irank i))).
+    assert (Wswap : forall t3, (forall a b, conn t1 a b -> conn t3 a b) -> CI t3 (Walk cb op oi (iparent i) me (irank i))).
     { intros t3 M3. cbn. split; [apply M3, M1, Co|apply M3, Cmp]. }
-    assert (Wup : forall t3, (forall a b, conn t1 a b -> conn t3 a b) -> CI t3 (Walk (iparent i) me op oi orank)).
+    assert (Wup : forall t3, (forall a b, conn t1 a b -> conn t3 a b) -> CI t3 (Walk cb (iparent i) me op oi orank)).
     { intros t3 M3. cbn. split; [apply M3, Cmp|apply M3, M1, Co]. }
-    assert (Qswap : forall t3 s, (forall a b, conn t1 a b -> conn t3 a b) -> Q t3 (s ++ [Walk op oi (iparent i) me (irank i)]) me op).
+    assert (Qswap : forall t3 s, (forall a b, conn t1 a b -> conn t3 a b) -> Q t3 (s ++ [Walk cb op oi (iparent i) me (irank i)]) me op).
     { intros t3 s M3. apply (rst_trans _ _ _ (iparent i)); [apply Q_conn, M3, Cmp|].
       apply rst_sym, Q_walk. rewrite walks_app. apply in_or_app. right. left. reflexivity. }
-    assert (Qup : forall t3 s, (forall a b, conn t1 a b -> conn t3 a b) -> Q t3 (s ++ [Walk (iparent i) me op oi orank]) me op).
+    assert (Qup : forall t3 s, (forall a b, conn t1 a b -> conn t3 a b) -> Q t3 (s ++ [Walk cb (iparent i) me op oi orank]) me op).
     { intros t3 s M3. apply (rst_trans _ _ _ (iparent i)); [apply Q_conn, M3, Cmp|].
       apply Q_walk. rewrite walks_app. apply in_or_app. right. left. reflexivity. }
     assert (Attach : forall t3, parent_of t1 me = me -> guarded_set t1 me op = Some t3 ->
@@ -264,32 +264,32 @@ Proof.
     assert (Same : forall a b, conn t1 a b -> conn t1 a b) by auto.
     destruct ((iparent i =? op) || (iparent i =? oi)) eqn:Eret.
     { injection He as <- <-. split; [exact M1|]. split; [apply S0, Same|].
-      intros me' c' op' oi' r' E. injection E as <- <- <- <- <-. apply Q_conn.
+      intros cb' me' c' op' oi' r' E. injection E as <- <- <- <- <- <-. apply Q_conn.
       apply orb_prop in Eret as [E|E]; apply Z.eqb_eq in E.
       - rewrite <- E. exact Cmp.
       - apply (conn_trans _ _ oi); [rewrite <- E; exact Cmp|apply M1, Co]. }
     destruct (orank <? irank i).
     { injection He as <- <-. split; [exact M1|]. split; [apply Forall_app; split; [apply S0, Same|constructor; [apply Wswap, Same|constructor]]|].
-      intros me' c' op' oi' r' E. injection E as <- <- <- <- <-. apply Qswap, Same. }
+      intros cb' me' c' op' oi' r' E. injection E as <- <- <- <- <- <-. apply Qswap, Same. }
     destruct (irank i =? orank).
     + destruct (Z.eqb_spec (iparent i) me) as [Hroot|Hnr].
       * destruct (me <? op).
         -- destruct (guarded_set t1 me op) as [t3|] eqn:G; [|discriminate]. injection He as <- <-.
            destruct (Attach t3 ltac:(congruence) eq_refl) as (M3 & J3).
            split; [intros a b H; apply M3, M1, H|]. split.
-           ++ apply Forall_app. split; [apply S0, M3|constructor; [cbn; exact J3|constructor]].
-           ++ intros me' c' op' oi' r' E. injection E as <- <- <- <- <-. apply Q_conn, J3.
+           ++ apply Forall_app. split; [apply S0, M3|destruct cb; [constructor|constructor; [cbn; exact J3|constructor]]].
+           ++ intros cb' me' c' op' oi' r' E. injection E as <- <- <- <- <- <-. apply Q_conn, J3.
         -- injection He as <- <-. split; [exact M1|]. split; [apply Forall_app; split; [apply S0, Same|constructor; [apply Wswap, Same|constructor]]|].
-           intros me' c' op' oi' r' E. injection E as <- <- <- <- <-. apply Qswap, Same.
+           intros cb' me' c' op' oi' r' E. injection E as <- <- <- <- <- <-. apply Qswap, Same.
       * injection He as <- <-. split; [exact M1|]. split; [apply Forall_app; split; [apply S0, Same|constructor; [apply Wup, Same|constructor]]|].
-        intros me' c' op' oi' r' E. injection E as <- <- <- <- <-. apply Qup, Same.
+        intros cb' me' c' op' oi' r' E. injection E as <- <- <- <- <- <-. apply Qup, Same.
     + destruct (Z.eqb_spec (iparent i) me) as [Hroot|Hnr].
       * destruct (guarded_set t1 me op) as [t3|] eqn:G; [|discriminate]. injection He as <- <-.
         destruct (Attach t3 ltac:(congruence) eq_refl) as (M3 & J3).
         split; [intros a b H; apply M3, M1, H|]. split; [apply S0, M3|].
-        intros me' c' op' oi' r' E. injection E as <- <- <- <- <-. apply Q_conn, J3.
+        intros cb' me' c' op' oi' r' E. injection E as <- <- <- <- <- <-. apply Q_conn, J3.
       * injection He as <- <-. split; [exact M1|]. split; [apply Forall_app; split; [apply S0, Same|constructor; [apply Wup, Same|constructor]]|].
-        intros me' c' op' oi' r' E. injection E as <- <- <- <- <-. apply Qup, Same.
+        intros cb' me' c' op' oi' r' E. injection E as <- <- <- <- <- <-. apply Qup, Same.
   - (* UpdParent *)
     cbn in HC.
     set (t1 := ensure t me) in *. assert (I1 : Inv t1) by (apply Inv_ensure, HI).
@@ -337,36 +337,36 @@ Proof.
   split.
   - apply Forall_app. split; [|exact CS]. apply Forall_remove_nth. apply Forall_forall. intros w Hw. apply (CI_mono t t' w M), HC0, Hw.
   - intros a b Hab. apply (Q_lift t pool); [|apply HQ, Hab]. intros u w [Hc|Hin]; [apply Q_conn, M, Hc|].
-    destruct (walks_remove k pool v u w Hk Hin) as [Hr|(c0 & oi0 & r0 & Ev)].
+    destruct (walks_remove k pool v u w Hk Hin) as [Hr|(cb0 & c0 & oi0 & r0 & Ev)].
     + apply Q_walk. rewrite walks_app. apply in_or_app. left. exact Hr.
-    + apply (Q_lift t' sends); [|apply (QW u c0 w oi0 r0 Ev)]. intros x y [Hc|Hi]; [apply Q_conn, Hc|].
+    + apply (Q_lift t' sends); [|apply (QW cb0 u c0 w oi0 r0 Ev)]. intros x y [Hc|Hi]; [apply Q_conn, Hc|].
       apply Q_walk. rewrite walks_app. apply in_or_app. right. exact Hi.
 Qed.
 
-Lemma walks_unions es : walks (unions es) = es.
-Proof. induction es as [|(a, b) es IH]; [reflexivity|]. unfold unions in *. cbn [map]. rewrite walks_cons, IH. reflexivity. Qed.
+Lemma walks_unions l : walks (unionsb l) = map snd l.
+Proof. induction l as [|(cb, (a, b)) l IH]; [reflexivity|]. unfold unionsb in *. cbn [map]. rewrite walks_cons, IH. reflexivity. Qed.
 Lemma Inv_nil : Inv [].
 Proof. intros x i H. discriminate. Qed.
 
-Lemma unions_GC es : GC es ([], unions es).
+Lemma unions_GC l : GC (map snd l) ([], unionsb l).
 Proof.
   split; [apply unions_GI|]. cbn [fst snd]. split.
-  - apply Forall_forall. intros v Hv. unfold unions in Hv. apply in_map_iff in Hv as ((a, b) & <- & _). cbn. split; apply conn_refl, Inv_nil.
+  - apply Forall_forall. intros v Hv. unfold unionsb in Hv. apply in_map_iff in Hv as ((cb, (a, b)) & <- & _). cbn. split; apply conn_refl, Inv_nil.
   - intros a b Hab. apply Q_walk. rewrite walks_unions. exact Hab.
 Qed.
 
-Lemma steps_GC es s : steps ([], unions es) s -> GC es s.
+Lemma steps_GC l s : steps ([], unionsb l) s -> GC (map snd l) s.
 Proof.
-  intros H. remember ([], unions es) as s0 eqn:E0. assert (G0 : GC es s0) by (subst; apply unions_GC). clear E0.
-  induction H as [s|s s1 s2 Hs _ IH]; [exact G0|]. apply IH. apply (step_preserves_GC es s s1 G0 Hs).
+  intros H. remember ([], unionsb l) as s0 eqn:E0. assert (G0 : GC (map snd l) s0) by (subst; apply unions_GC). clear E0.
+  induction H as [s|s s1 s2 Hs _ IH]; [exact G0|]. apply IH. apply (step_preserves_GC (map snd l) s s1 G0 Hs).
 Qed.
 
 (* the union graph *)
 Definition R (es : list (Z * Z)) : Z -> Z -> Prop := clos_refl_sym_trans Z (fun u v => In (u, v) es).
 
-Theorem quiescent_complete es t : steps ([], unions es) (t, []) -> forall a b, R es a b -> conn t a b.
+Theorem quiescent_complete l t : steps ([], unionsb l) (t, []) -> forall a b, R (map snd l) a b -> conn t a b.
 Proof.
-  intros H. destruct (steps_GC es _ H) as ((HI & _) & _ & HQ). cbn [fst snd] in *.
+  intros H. destruct (steps_GC l _ H) as ((HI & _) & _ & HQ). cbn [fst snd] in *.
   assert (QC : forall a b, Q t [] a b -> conn t a b).
   { intros a b Hq. induction Hq as [u v [Hc|[]]|u|u v _ IH|u v w _ IH1 _ IH2];
       [exact Hc|apply conn_refl, HI|apply conn_sym, IH|apply (conn_trans _ _ _ _ IH1 IH2)]. }
@@ -376,7 +376,8 @@ Qed.
 
 (* ---- soundness along every delivery order -------------------------------------------------------------------------- *)
 Section Sound.
-  Variable es : list (Z * Z).
+  Variable l : list (bool * (Z * Z)).
+  Notation es := (map snd l).
   Notation Re := (R es).
   Lemma R_refl a : Re a a. Proof. apply rst_refl. Qed.
   Lemma R_sym a b : Re a b -> Re b a. Proof. apply rst_sym. Qed.
@@ -385,7 +386,7 @@ Section Sound.
   Definition SI (t : table) : Prop := forall x, Re x (parent_of t x).
   Definition RV (v : visit) : Prop :=
     match v with
-    | Walk me child op oi _ => Re me op /\ Re child me /\ Re oi op
+    | Walk _ me child op oi _ => Re me op /\ Re child me /\ Re oi op
     | UpdParent me np => Re me np
     | Resolve me mitem _ => Re mitem me
     end.
@@ -400,16 +401,16 @@ Section Sound.
 
   Theorem exec_sound t v t' sends : SI t -> RV v -> exec t v = Some (t', sends) -> SI t' /\ Forall RV sends.
   Proof.
-    intros HS HR He. destruct v as [me child op oi orank|me np|me mitem mrank]; cbn [exec] in He.
+    intros HS HR He. destruct v as [cb me child op oi orank|me np|me mitem mrank]; cbn [exec] in He.
     - destruct HR as (Rmo & Rcm & Roo).
       pose proof (SI_ensure t me HS) as S1. set (t1 := ensure t me) in *.
       destruct (lookup t1 me) as [i|] eqn:Hi; [|discriminate].
       assert (Rmp : Re me (iparent i)) by (pose proof (S1 me) as H; unfold parent_of in H; rewrite Hi in H; exact H).
       assert (S0 : Forall RV (if child =? me then [] else [UpdParent child (iparent i)])).
       { destruct (child =? me); constructor; [|constructor]. cbn. apply (R_trans _ me); assumption. }
-      assert (Wswap : RV (Walk op oi (iparent i) me (irank i))).
+      assert (Wswap : RV (Walk cb op oi (iparent i) me (irank i))).
       { cbn. split; [apply (R_trans _ me); [apply R_sym, Rmo|exact Rmp]|]. split; [exact Roo|exact Rmp]. }
-      assert (Wup : RV (Walk (iparent i) me op oi orank)).
+      assert (Wup : RV (Walk cb (iparent i) me op oi orank)).
       { cbn. split; [apply (R_trans _ me); [apply R_sym, Rmp|exact Rmo]|]. split; [exact Rmp|exact Roo]. }
       destruct ((iparent i =? op) || (iparent i =? oi)); [injection He as <- <-; split; assumption|].
       destruct (orank <? irank i); [injection He as <- <-; split; [exact S1|apply Forall_app; split; [exact S0|constructor; [exact Wswap|constructor]]]|].
@@ -417,7 +418,7 @@ Section Sound.
       + destruct (iparent i =? me).
         * destruct (me <? op).
           -- destruct (guarded_set t1 me op) as [t3|] eqn:G; [|discriminate]. injection He as <- <-.
-             split; [apply (SI_guarded t1 me op t3 S1 Rmo G)|]. apply Forall_app. split; [exact S0|constructor; [cbn; exact Rmo|constructor]].
+             split; [apply (SI_guarded t1 me op t3 S1 Rmo G)|]. apply Forall_app. split; [exact S0|destruct cb; [constructor|constructor; [cbn; exact Rmo|constructor]]].
           -- injection He as <- <-; split; [exact S1|apply Forall_app; split; [exact S0|constructor; [exact Wswap|constructor]]].
         * injection He as <- <-; split; [exact S1|apply Forall_app; split; [exact S0|constructor; [exact Wup|constructor]]].
       + destruct (iparent i =? me).
@@ -442,12 +443,12 @@ Section Sound.
   Lemma root_R t x r : SI t -> root t x r -> Re x r.
   Proof. intros HS H. induction H as [x _|x r _ _ IH]; [apply R_refl|apply (R_trans _ (parent_of t x)); [apply HS|exact IH]]. Qed.
 
-  Lemma steps_sound s : steps ([], unions es) s -> SI (fst s) /\ Forall RV (snd s).
+  Lemma steps_sound s : steps ([], unionsb l) s -> SI (fst s) /\ Forall RV (snd s).
   Proof.
-    intros H. remember ([], unions es) as s0 eqn:E0.
+    intros H. remember ([], unionsb l) as s0 eqn:E0.
     assert (G0 : SI (fst s0) /\ Forall RV (snd s0)).
-    { subst. cbn. split; [intros x; apply R_refl|]. apply Forall_forall. intros v Hv. unfold unions in Hv.
-      apply in_map_iff in Hv as ((a, b) & <- & Hin). cbn. split; [apply rst_step, Hin|]. split; [apply R_refl|apply R_refl]. }
+    { subst. cbn. split; [intros x; apply R_refl|]. apply Forall_forall. intros v Hv. unfold unionsb in Hv.
+      apply in_map_iff in Hv as ((cb, (a, b)) & <- & Hin). cbn. split; [apply rst_step; apply (in_map snd) in Hin; exact Hin|]. split; [apply R_refl|apply R_refl]. }
     clear E0. induction H as [s|s s1 s2 Hs _ IH]; [exact G0|]. apply IH. clear IH.
     destruct Hs as [t pool k v t' sends Hk He]. cbn [fst snd] in *. destruct G0 as (HS & HR).
     pose proof HR as HR0. rewrite Forall_forall in HR0.
@@ -456,7 +457,7 @@ Section Sound.
   Qed.
 
   (* at every moment, not only at quiescence: items with the same root are connected in the union graph *)
-  Theorem always_sound s a b : steps ([], unions es) s -> conn (fst s) a b -> Re a b.
+  Theorem always_sound s a b : steps ([], unionsb l) s -> conn (fst s) a b -> Re a b.
   Proof.
     intros H (r & A & B). destruct (steps_sound s H) as (HS & _).
     apply (R_trans _ r); [apply (root_R _ _ _ HS A)|apply R_sym, (root_R _ _ _ HS B)].
@@ -464,10 +465,10 @@ Section Sound.
 End Sound.
 
 (* THE THEOREM: along every delivery order, once no visit is pending, "same root" is exactly "connected by the unions issued" *)
-Theorem quiescent_roots_are_components es t :
-  steps ([], unions es) (t, []) -> forall a b, conn t a b <-> R es a b.
+Theorem quiescent_roots_are_components l t :
+  steps ([], unionsb l) (t, []) -> forall a b, conn t a b <-> R (map snd l) a b.
 Proof.
-  intros H a b. split; [apply (always_sound es (t, []) a b H)|apply (quiescent_complete es t H)].
+  intros H a b. split; [apply (always_sound l (t, []) a b H)|apply (quiescent_complete l t H)].
 Qed.
 
 (* [root] is what the executable lookup computes *)
